@@ -9,7 +9,7 @@
      fs       : FS <ndisks> { X- | X <nfiles> { <name> <size> <mtime> <nsec> <inode> <nblk> <id>* }* }*
      hashes   : H <n> { <bid> <len> <hval> }*          (anything absent hashes to a fresh value 1000000+bid*4096+len)
      faults   : Q <n> { <pos> <disk> <E|I|F> }*
-     wfaults  : W <n> { <pos> <level> <E|N> }*       (E = EIO -> WEio, N = anything else (ENOSPC) -> WErr)
+     wfaults  : W <n> { <pos> <level> <E|N> <lag> }*   (E = EIO -> WEio, N = anything else (ENOSPC) -> WErr; lag = schedule of that writer's report)
    request  : syncw <force_full> <force_parity_update> <io_limit> <now> <bs> <nlev> <stop|-1> <start> <max> M <io_cache> <lag> H.. C.. P.. FS.. Q.. W..
    reply    : ok <nerr> <nsilent> <nio> <bailed> <nfail> <nlost> <iterations completed> C.. P..
    request  : scrub1 <limit> <io_before> <now> <time> <bad> <rehash> <just> D <n> { <used> <invalid> <file> <tsdiff> <updhash> <O1|O0|E|I|FI|F> }* L <n> { <P1|P0|E|I|FI|F> }*
@@ -153,10 +153,13 @@ let parse_faults t =
 let parse_wfaults t =
   expect t "W";
   let n = nint t in
-  let l = rep n (fun () -> let p = nint t in let lv = nint t in let k = next t in (p, lv, (if k = "E" then WEio else WErr))) in
-  fun (pos : nat) (lev : nat) ->
-    let p = int_of_nat pos and lv = int_of_nat lev in
-    match List.find_opt (fun (p', l', _) -> p' = p && l' = lv) l with Some (_, _, w) -> w | None -> WOk
+  let l = rep n (fun () -> let p = nint t in let lv = nint t in let k = next t in let lg = nint t in (p, lv, (if k = "E" then WEio else WErr), lg)) in
+  ((fun (pos : nat) (lev : nat) ->
+     let p = int_of_nat pos and lv = int_of_nat lev in
+     match List.find_opt (fun (p', l', _, _) -> p' = p && l' = lv) l with Some (_, _, w, _) -> w | None -> WOk),
+   (fun (pos : nat) (lev : nat) ->
+     let p = int_of_nat pos and lv = int_of_nat lev in
+     match List.find_opt (fun (p', l', _, _) -> p' = p && l' = lv) l with Some (_, _, _, lg) -> nat_of_int lg | None -> nat_of_int 1))
 
 let () =
   try
@@ -175,11 +178,11 @@ let () =
           let p = parse_parity t in
           let fs = parse_fs t in
           let faults = parse_faults t in
-          let wf = parse_wfaults t in
+          let (wf, lagf) = parse_wfaults t in
           let o = { o_force_full = ff; o_force_parity_update = fpu; o_io_error_limit = nat_of_int iol } in
           let stripes = List.init (max 0 (mx - start)) (fun i -> nat_of_int (start + i)) in
           let m = if cache <= 1 then Mono else Threaded (nat_of_int cache) in
-          let r = sync_loop_w hashf (n_of_int bs) (nat_of_int nlev) o (n_of_int now) fs faults wf m (fun _ -> nat_of_int lag) stripes
+          let r = sync_loop_w hashf (n_of_int bs) (nat_of_int nlev) o (n_of_int now) fs faults wf m lagf stripes
                     (if stop < 0 then None else Some (nat_of_int stop)) O [] O c p O O O in
           let ro = r.w_run in
           let b = Buffer.create 4096 in
